@@ -12,6 +12,7 @@ CONSTANTS
   MaxRect = 1
   BIds = "whole"
   Thrs = {3}
+  FilterSkew = FALSE
   TopNs = {0}
   RecalcWeight = 1
   Rand = FALSE
